@@ -274,3 +274,42 @@ m("x5-fill-guard-le-spins", "C07", VM, _SUBSLICE, _fill(guard="<="), "?")
 m("x5-fill-unwrap-overruns", "C07", VM, _SUBSLICE, _fill(chunklen="pattern.len()"), "?")
 m("x5-fill-update-skipped", "C07", VM, _SUBSLICE, _fill(update="if n == pattern.len() { done += n; }"), "?")
 m("x5-fill-step-may-be-zero", "C07", VM, _SUBSLICE, _fill(nexpr="min(pattern.len(), self.size - done) & !7"), "?")
+
+_RMR = "    /// Remove a region into the `GuestMemoryMmap` object and return a new `GuestMemoryMmap`\n    /// on success, together with the removed region."
+_RETAIN = """    /// Keeps the regions for which `keep` holds (test mutant scaffold).
+    pub fn retain_regions<F: FnMut(&GuestRegionMmap<B>) -> bool>(&self, mut keep: F) -> GuestMemoryMmap<B> {
+        let mut regions = Vec::with_capacity(self.regions.len());
+        for region in self.regions.iter()REV {
+            if keep(region.as_ref()) {
+                PUSH
+            }
+        }
+        Self { regions }
+    }
+
+"""
+m("x5-retain-reversed", "C10", MM, _RMR, _RETAIN.replace("REV", ".rev()").replace("PUSH", "regions.push(Arc::clone(region));") + _RMR, "?")
+m("x5-retain-insert-front", "C10", MM, _RMR, _RETAIN.replace("REV", "").replace("PUSH", "regions.insert(0, Arc::clone(region));") + _RMR, "?")
+
+# debug assertions: true ones are discharged (refactors/Cnn-add-*), ones that CAN fail must still be reported
+m("x5-assert-strict-can-fail", "C07", VM, "        let guard = slice.ptr_guard();\n\n        // SAFETY: guaranteed by function invariants.\n        copy_slice(dst, guard.as_ptr(), total)",
+  "        let guard = slice.ptr_guard();\n        debug_assert!(total < guard.len());\n\n        // SAFETY: guaranteed by function invariants.\n        copy_slice(dst, guard.as_ptr(), total)", "?")
+m("x5-assert-eq-buf-len", "C07", IO, "        let written = unsafe { copy_from_volatile_slice(self.as_mut_ptr(), buf, total) };\n\n        // Advance the slice, just like the stdlib",
+  "        let written = unsafe { copy_from_volatile_slice(self.as_mut_ptr(), buf, total) };\n        debug_assert_eq!(written, buf.len());\n\n        // Advance the slice, just like the stdlib", "?")
+m("x5-assert-true-control", "C07", IO, "        let written = unsafe { copy_from_volatile_slice(self.as_mut_ptr(), buf, total) };\n\n        // Advance the slice, just like the stdlib",
+  "        let written = unsafe { copy_from_volatile_slice(self.as_mut_ptr(), buf, total) };\n        debug_assert_eq!(written, total);\n        debug_assert!(written > buf.len());\n\n        // Advance the slice, just like the stdlib", "?")
+
+_FILLAT = """    pub fn fill_at(&self, offset: usize, count: usize, value: u8) -> Result<()> {
+        let target = self.subslice(offset, count)?;
+        if count == 0 {
+            return Ok(());
+        }
+        let guard = target.ptr_guard_mut();
+        // SAFETY: test mutant
+        unsafe { std::ptr::write_bytes(guard.as_ptr(), value, NBYTES) };
+        target.bitmap.mark_dirty(0, NBYTES);
+        Ok(())
+    }
+
+"""
+m("x5-fill-view-overrun", "C04,C17", VM, _SUBSLICE, _FILLAT.replace("NBYTES", "self.size") + _SUBSLICE, "?")
